@@ -37,11 +37,11 @@ ASSUMPTIONS = [
     "WOFF2 glyf/loca/hmtx reconstruction is trusted to fontTools' own reader; transformed tables are compared at content level",
     "derived fields are recomputed only for TrueType-flavoured outputs whose tables were all recompiled with recalcBBoxes=True; composites with scaled or point-matched components are exempt from the bbox recomputation",
 ]
-EXPECTED_PROBES = ["resave", "foreign", "foreign.longloca", "woff2.loca_checked", "metrics.checked.vmtx", "validated.sfnt", "validated.woff", "validated.woff2", "validated.ttc", "derived.checked", "flavour.compared", "dest.unseekable", "padding.4", "woff.metadata"]
+EXPECTED_PROBES = ["session.saved", "resave", "foreign", "foreign.longloca", "woff2.loca_checked", "metrics.checked.vmtx", "validated.sfnt", "validated.woff", "validated.woff2", "validated.ttc", "derived.checked", "flavour.compared", "dest.unseekable", "padding.4", "woff.metadata"]
 
 TIERS = {
-    "quick": {"budget_s": 600, "determinism_sample": 10, "n": {"save": 2600, "pipe": 500, "ttc": 300}, "minimise_s": 40, "max_minimise": 3},
-    "thorough": {"budget_s": 5400, "determinism_sample": 100, "n": {"save": 40000, "pipe": 8000, "ttc": 4000}, "minimise_s": 120, "max_minimise": 6},
+    "quick": {"budget_s": 600, "determinism_sample": 10, "n": {"save": 2600, "pipe": 500, "ttc": 300, "session": 150}, "minimise_s": 40, "max_minimise": 3},
+    "thorough": {"budget_s": 5400, "determinism_sample": 100, "n": {"save": 40000, "pipe": 8000, "ttc": 4000, "session": 3000}, "minimise_s": 120, "max_minimise": 6},
 }
 
 
@@ -55,11 +55,13 @@ def batches(ctx):
         {"name": "save", "n": n["save"], "fault_free": True},
         {"name": "pipe", "n": n["pipe"], "fault_free": True},
         {"name": "ttc", "n": n["ttc"], "fault_free": True},
+        {"name": "session", "n": n.get("session", 0), "fault_free": True},
     ]
 
 
 OPS = ["glyfshift", "compbase", "cffshift", "os2stale", "hmtx", "vmtx", "headflags", "cmap", "name", "os2", "deltable", "opaque", "subset", "scale", "reorder", "instantiate", "cffwidth"]
 SMALL_OPS = ["glyfshift", "compbase", "cffshift", "os2stale", "hmtx", "vmtx", "headflags", "cmap", "name", "os2", "opaque"]
+CUBIC = "bin:ttLib/data/dot-cubic.ttf"
 VERTICAL = ["ttx:" + p for p in ("cffLib/data/TestSparseCFF2VF.ttx", "subset/data/NotdefWidthCID-Regular.ttx", "subset/data/NotoSansCJKjp-Regular.subset.ttx", "subset/data/TestCID-Regular.ttx", "subset/data/harfbuzz_repacker.ttx", "ttLib/tables/data/NotoColorEmoji.subset.index_format_3.ttx", "ttLib/tables/data/_v_h_e_a_recalc_OTF.ttx", "ttLib/tables/data/_v_h_e_a_recalc_TTF.ttx")]
 
 
@@ -138,6 +140,23 @@ def generate(ctx, batch, idx):
         h = c16_pipes.generate(ctx, r, idx, build_only=r.random() < 0.5)
         h["kind"] = "pipe"
         return h
+    if batch == "session":
+        # several fonts saved one after the other with ONE flavour-data object (as a build script does):
+        # what the writer does for one font - e.g. falling back from the glyf transform for a font with cubic
+        # outlines - must not leak into the next
+        bt = corpus.keys_by_tag()
+        ks = []
+        for _ in range(r.randint(2, 4)):
+            q = r.random()
+            if q < 0.25 and CUBIC in corpus.all_gen2_keys():
+                ks.append(CUBIC)
+            elif q < 0.6 and bt.get("glyf"):
+                ks.append(r.choice(bt["glyf"]))
+            else:
+                ks.append(_pick(r))
+        if any(k is None for k in ks):
+            return None
+        return {"kind": "session", "fonts": ks, "flavor": r.choice(["woff2", "woff2", "woff"]), "tt": r.choice(["default", "default", "hmtx", "none"]), "meta": r.random() < 0.3, "lazy": r.choice([None, True, False]), "ops": []}
     if batch == "ttc":
         ks = [_pick(r) for _ in range(r.randint(2, 4))]
         if any(k is None for k in ks):
@@ -228,6 +247,8 @@ def execute(ctx, h):
                 return exec_pipe(ctx, h, scratch)
             if k == "ttc":
                 return exec_ttc(ctx, h, scratch)
+            if k == "session":
+                return exec_session(ctx, h, scratch)
             raise ValueError(k)
     finally:
         shutil.rmtree(scratch, ignore_errors=True)
@@ -538,6 +559,69 @@ def exec_pipe(ctx, h, scratch):
             probes["derived.checked"] = probes.get("derived.checked", 0) + 1
             if derr:
                 _fail(res, "derived-field-wrong:" + derr[0].split(" ")[0], "output of %s, recomputed from the saved data: %s" % (h["pipe"], derr[:3]) + where, field=derr[0].split(" ")[0], pipe=h["pipe"])
+    if res.get("violation"):
+        _known(h, res)
+    return res
+
+
+def exec_session(ctx, h, scratch):
+    from fontTools.ttLib import TTFont
+
+    events, probes = [], {}
+    res = {"events": events, "probes": probes, "faults": {}, "states": [], "known": [], "nontrivial": False}
+    if h["flavor"] == "woff2":
+        from fontTools.ttLib.woff2 import WOFF2FlavorData
+
+        tt = {"default": {"glyf", "loca"}, "hmtx": {"glyf", "loca", "hmtx"}, "none": set()}[h["tt"]]
+        fd = WOFF2FlavorData(transformedTables=tt)
+    else:
+        from fontTools.ttLib.sfnt import WOFFFlavorData
+
+        fd = WOFFFlavorData()
+    if h["meta"]:
+        fd.metaData = b'<?xml version="1.0" encoding="UTF-8"?><metadata version="1.0"><uniqueid id="verif"/></metadata>'
+    for n_, key in enumerate(h["fonts"]):
+        src = _src(key, False)
+        if src is None:
+            continue
+        where = " [session font %d of %s, flavor=%s transforms=%s]" % (n_, h["fonts"], h["flavor"], h["tt"])
+        try:
+            font = TTFont(io.BytesIO(src), lazy=h["lazy"], recalcTimestamp=False)
+            font.flavor = h["flavor"]
+            font.flavorData = fd
+            b = io.BytesIO()
+            font.save(b)
+            out = b.getvalue()
+        except Exception as e:
+            events.append(["session-save-rejected", n_, type(e).__name__])
+            probes["save_rejected"] = 1
+            continue
+        res["nontrivial"] = True
+        probes["session.saved"] = probes.get("session.saved", 0) + 1
+        kind, members, errs = validate(out, probes, h["flavor"])
+        events.append([key, n_, prng.bdigest(out), len(errs)])
+        if errs:
+            _fail(res, "invalid-container:%s:%s" % (kind, errs[0].split(" ")[0]), "%s output violates container rules: %s" % (kind, errs[:4]) + where, kind=kind)
+            break
+        # the file decodes to the tables of the plain save of the same font
+        try:
+            back = TTFont(io.BytesIO(out), lazy=False)
+            plain = TTFont(io.BytesIO(src), lazy=False)
+            bad = None
+            if "glyf" in plain:
+                for g in plain.getGlyphOrder():
+                    if back["glyf"][g] != plain["glyf"][g]:
+                        bad = "glyph %r differs" % g
+                        break
+            if bad is None and "hmtx" in plain and back["hmtx"].metrics != plain["hmtx"].metrics:
+                bad = "hmtx differs"
+            if bad:
+                _fail(res, "flavoured-output-content-differs:" + h["flavor"], bad + where)
+                break
+        except Exception as e:
+            _fail(res, "flavoured-output-unreadable:" + h["flavor"], "%s: %s" % (type(e).__name__, str(e)[:120]) + where)
+            break
+    res["states"].append("%s|%s|%s" % (h["fonts"], h["flavor"], h["tt"]))
     if res.get("violation"):
         _known(h, res)
     return res
